@@ -127,6 +127,9 @@ pub fn gen_browse_world(prop: &str, flavor: Flavor, seed: u64, index: u64, tier:
             let label = format!("{}{}-{}", ["svc", "My Printer ", "dev_"][rng.below(3) as usize], p, k);
             let ttl_o = TTLS_OTHER[rng.below(if flavor == Flavor::C04 { 4 } else { 7 } ) as usize + if flavor == Flavor::C04 { 3 } else { 0 }];
             let ttl_h = TTLS_HOST[rng.below(if flavor == Flavor::C04 { 3 } else { 6 }) as usize + if flavor == Flavor::C04 { 3 } else { 0 }];
+            // (C04: one instance in eight carries a short TTL - 2, 5 or 10 s - on its PTR and TXT; only the ServiceFound
+            // rule is judged for it. Chosen from the world's index, not from the PRNG, so that all other worlds stay as they were.)
+            let ttl_o = if flavor == Flavor::C04 && (index + 7 * p as u64 + 3 * k) % 8 == 0 { [2, 5, 10][((index / 8) % 3) as usize] } else { ttl_o };
             max_ttl = max_ttl.max(ttl_o).max(ttl_h);
             let a4 = format!("192.168.{}.{}", 1 + seg, host_octet);
             let a4b = format!("192.168.{}.{}", 1 + seg, 100 + host_octet);
@@ -550,7 +553,7 @@ impl Property for C04 {
         ]
     }
     fn expected_probes(&self) -> Vec<&'static str> {
-        vec!["completed-by-second-packet", "completed-by-follow-up-answer", "follow-up-query-seen", "address-arrived-last"]
+        vec!["completed-by-second-packet", "completed-by-follow-up-answer", "follow-up-query-seen", "address-arrived-last", "found-with-short-ttl"]
     }
     fn gen(&self, seed: u64, index: u64, tier: Tier) -> Scenario {
         gen_browse_world("C04", Flavor::C04, seed, index, tier)
@@ -579,6 +582,13 @@ impl Property for C04 {
                     let found = tr.events.iter().any(|e| e.d == d && e.slot == w.slot && e.step <= a.step && matches!(&e.ev, EvKind::Found(t, i) if *t == w.key && *i == inst_s));
                     if !found {
                         j.fail("C04-R1", format!("PTR {} -> {} accepted in step {} (t={}) but no ServiceFound on the channel by the end of that step", w.key, inst_s, a.step, a.t));
+                    }
+                }
+                if let Some(a) = first {
+                    if a.ttl < 60 {
+                        // short-lived PTR: completeness and follow-up timing are judged on the long-lived instances only
+                        j.probe("found-with-short-ttl");
+                        continue;
                     }
                 }
                 // R2: the first step (inside the window) after which the set is complete
@@ -654,6 +664,9 @@ impl Property for C04 {
                 for &pi in &m.find(&ty, wire::T_PTR) {
                     let Some(inst) = ptr_target(&m.recs[pi].rec).cloned() else { continue };
                     let Some(a) = m.recs[pi].arrivals.iter().find(|a| a.certain && a.ttl > 1 && a.step > w.open_step && a.step <= w.close_step) else { continue };
+                    if a.ttl < 60 {
+                        continue;
+                    }
                     let t0 = a.t;
                     let srv_by = |t: u64| m.find(&inst, wire::T_SRV).into_iter().any(|i| m.recs[i].arrivals.iter().any(|x| x.t <= t));
                     let any_related_between = |lo: u64, hi: u64| m.recs.iter().any(|h| (h.rec.name.eq_ci(&inst)) && h.arrivals.iter().any(|x| x.t > lo && x.t <= hi));
